@@ -235,9 +235,9 @@ class ConformationContainer:
             _LOGGER.info('Removing penalised groups!!!')
             for group in self.get_titratable_groups():
                 group.remove_determinants(penalised_labels)
-            # re-calculating the total pKa values
-            for group in self.groups:
-                group.calculate_total_pka()
+        # re-calculating the total pKa values
+        for group in self.groups:
+            group.calculate_total_pka()
 
     def coupling_effects(self):
         """Penalize groups based on coupling effects.
